@@ -840,6 +840,10 @@ func hasErrorReturn(ft *ast.FuncType) (bool, error) {
 }
 
 func funcType(ft *ast.FuncType) (*Function, error) {
+	if hasTypeParams(ft) {
+		// a generic function cannot be called without instantiating it
+		return nil, errors.New("generic functions cannot be targets")
+	}
 	var err error
 	f := &Function{}
 	f.IsContext, err = hasContextParam(ft)
